@@ -163,6 +163,15 @@ class EngineObjects(Part):
         "repeat_store": ("repeat.__setitem__('zz', 5)",
                          "repeat['zz'] | 'none'"),
         "control": ("None", "sorted(attrs)"),
+        # containers that the TEMPLATE creates with a literal and then
+        # fills: every rendering (and every repetition) starts from the
+        # literal
+        "literal_list": ("acc.append(len(acc))", "[]"),
+        "literal_dict": ("acc.setdefault('k', []).append(1)", "{}"),
+        "literal_set": ("acc.add(len(acc))", "{0}"),
+        "literal_nested": ("acc[0].append(1)", "[[], 1]"),
+        "literal_filled": ("acc.extend('ab')", "['x']"),
+        "literal_tuple_of_lists": ("acc[1].append(2)", "([], [])"),
     }
 
     def strategy(self, tier):
@@ -176,6 +185,11 @@ class EngineObjects(Part):
 
     def source(self, case):
         mut, probe = self.MUTATIONS[case["kind"]]
+        if case["kind"].startswith("literal"):
+            # (also inside a loop: every repetition defines it anew)
+            return ('<i%s tal:repeat="r (1, 2)"><b tal:define="acc %s; '
+                    'dummy %s">${acc}</b></i>' % (case["static"], probe,
+                                                  mut))
         # the probe stands BEFORE the mutation: the first rendering shows the
         # pristine state, every later one must show the same
         return ('<i%s tal:define="before %s; dummy %s">${before}</i>'
